@@ -395,6 +395,19 @@ def _check(args):
         nm = rx.choice(["notes", "Sheet1", "setting", "choice", "surveys_old", "sheet_names"])
         if nm not in form and not (nm == "setting" and "settings" in form) and not (nm == "choice" and "choices" in form):
             form[nm] = [{"a": "x", "b": "y"}, {"a": "1"}]
+    if i % 5 == 3:
+        # blank rows inside the data (and unlabelled groups below them, which draw a row-numbered warning): every container, text ones included,
+        # must count them, so that the row numbers in the messages are the same everywhere
+        rb = rng_for(seed, PID, "blank-rows", i)
+        for sh in ("survey", "choices"):
+            rows_ = form.get(sh)
+            if rows_ and len(rows_) >= 2:
+                for _ in range(rb.choice([1, 1, 2])):
+                    rows_.insert(rb.randrange(1, len(rows_)), {})
+        for r_ in form["survey"]:
+            if r_.get("type", "").startswith(("begin group", "begin repeat")) and rb.random() < 0.7:
+                for k_ in [k_ for k_ in r_ if k_.startswith(("label", "media", "image", "audio", "video", "big-image", "hint"))]:
+                    del r_[k_]
     multiline = False
     pipes = False
     if i % 4 == 3:
